@@ -40,6 +40,49 @@ fn raw_clone(cap: usize, n: usize) {
     drop(d);
 }
 
+/// C16: the clone of a RawLRU built with an eviction callback carries the callback: after the
+/// clone, one symbolic put and a purge on the clone report exactly the entries that leave it
+/// (the original stays silent).  Covers the empty state (n = 0) as well.
+fn clone_cb(cap: usize, n: usize, with_hasher: bool) {
+    let mut c: RawLRU<u8, u8, LogCb, H> = if with_hasher {
+        RawLRU::with_on_evict_cb_and_hasher(cap, LogCb, H::default()).unwrap()
+    } else {
+        RawLRU::with_on_evict_cb(cap, LogCb).unwrap()
+    };
+    let l = gen::fill(&mut c, n, &[]);
+    let mut m = LruM { cap, l };
+    let mut d = c.clone();
+    unsafe {
+        LOG_N = 0;
+    }
+    let k: u8 = kani::any();
+    let v: u8 = kani::any();
+    let mut exp = ML::new();
+    let r = d.put(k, v);
+    let mr = m.put(k, v);
+    if let MPut::Evicted(ek, ev) = mr {
+        exp.push_back(ek, ev);
+    }
+    let res_ok = pr_eq(&r, &mr);
+    d.purge();
+    let mut i = 0;
+    while i < MAXN {
+        if let Some((a, b)) = m.l.pop_back() {
+            exp.push_back(a, b);
+        }
+        i += 1;
+    }
+    let log_ok = log_is(&exp);
+    witness!(true, exp.n >= 1, "W: at least one entry leaves the clone");
+    witness!(n == cap, exp.n == n + 1, "W: capacity eviction in the clone");
+    checks! {
+        "[C16] a put on the clone returns what the same put on the original would" => res_ok;
+        "[C16][C15] the clone carries the eviction callback: every entry leaving the clone is reported exactly once, in order" => log_ok;
+    }
+    core::mem::forget(c);
+    core::mem::forget(d);
+}
+
 /// RawLRU::clone, identity only (cheap): same abstraction for every index iteration order
 fn raw_clone_id(cap: usize, n: usize) {
     let (c, m) = gen::raw(cap, n);
@@ -865,6 +908,33 @@ macro_rules! misc_family {
             #[kani::unwind(6)]
             pub(crate) fn id_c3n2() {
                 super::raw_clone_id(3, 2)
+            }
+        }
+        pub(crate) mod clone_cb {
+            #[kani::proof]
+            #[kani::unwind(7)]
+            pub(crate) fn c1n0() {
+                super::clone_cb(1, 0, false)
+            }
+            #[kani::proof]
+            #[kani::unwind(7)]
+            pub(crate) fn c2n0h() {
+                super::clone_cb(2, 0, true)
+            }
+            #[kani::proof]
+            #[kani::unwind(7)]
+            pub(crate) fn c1n1h() {
+                super::clone_cb(1, 1, true)
+            }
+            #[kani::proof]
+            #[kani::unwind(7)]
+            pub(crate) fn c2n2() {
+                super::clone_cb(2, 2, false)
+            }
+            #[kani::proof]
+            #[kani::unwind(7)]
+            pub(crate) fn c2n1() {
+                super::clone_cb(2, 1, false)
             }
         }
         pub(crate) mod clone_slru_id {
